@@ -466,6 +466,10 @@ func (env *Env) trCall(x ECall) TV {
 			env.fail("fresh() needs an old state")
 		}
 		return TV{T: fmt.Sprintf("(and (> %s %s) (<= %s %s))", v.T, env.old.get("$wm"), v.T, env.st.get("$wm")), S: "Bool"}
+	case "arr":
+		// arr(s): the identity of the backing array of slice s (0 for a nil slice)
+		v := env.tr(args[0])
+		return TV{T: "(s-arr " + v.T + ")", S: "Int"}
 	case "allocated":
 		v := env.tr(args[0])
 		return TV{T: fmt.Sprintf("(and (<= 0 %s) (<= %s %s))", v.T, v.T, env.st.get("$wm")), S: "Bool"}
@@ -484,6 +488,10 @@ func (env *Env) trCall(x ECall) TV {
 		// unbox(x, "sort")
 		v := env.tr(args[0])
 		so := args[1].(EStr).Val
+		if so == "Int" {
+			// pointers and integers are stored in an interface value unboxed
+			return TV{T: "(i-val " + v.T + ")", S: so}
+		}
 		return TV{T: fmt.Sprintf("(%s (i-val %s))", eng.unboxFn(so), v.T), S: so}
 	case "implements":
 		// implements(x, "pkg.Iface"): the dynamic type of interface value x implements the named interface
